@@ -81,10 +81,34 @@ func evalC13(k c13Case) []pbt.Violation {
 			continue
 		}
 		for _, l := range inproc.Langs {
+			if first.GenErr[l] != r.GenErr[l] {
+				return []pbt.Violation{{Signature: "nondeterministic:outcome:" + l, Detail: fmt.Sprintf("run 1 of %s ends with %q, run %d with %q", l, first.GenErr[l], i+1, r.GenErr[l])}}
+			}
 			if d := inproc.FilesEqual(first.Files[l], r.Files[l]); d != "" {
 				return []pbt.Violation{{Signature: "nondeterministic:" + l + ":" + fileClass(d), Detail: fmt.Sprintf("run 1 and run %d of the same DSL differ for %s: %s", i+1, l, d)}}
 			}
 		}
+	}
+	if len(first.GenErr) > 0 {
+		// a program some targets refuse (no root packet): the command line stops at the first
+		// refusal; what the earlier targets left behind must not vary from process to process
+		if k.CLI && cli.Bin() != "" {
+			var ref map[string]map[string][]byte
+			for i := 0; i < 3; i++ {
+				trees, _, dir := compileCLI(k.Text, []string{"rust", "go", "java", "python"}, true)
+				os.RemoveAll(dir)
+				if ref == nil {
+					ref = trees
+					continue
+				}
+				for _, l := range []string{"rust", "go", "java", "python"} {
+					if d := inproc.FilesEqual(ref[l], trees[l]); d != "" {
+						return []pbt.Violation{{Signature: "nondeterministic:refused:" + l, Detail: fmt.Sprintf("two CLI processes that both stop at the refusing target leave different trees for %s: %s", l, d)}}
+					}
+				}
+			}
+		}
+		return nil
 	}
 	if k.CLI && cli.Bin() != "" {
 		var ref map[string]map[string][]byte
@@ -201,6 +225,10 @@ func genMapRich(rt *rapid.T, avoid map[string]bool) *dsl.Program {
 	// the same inline object declared in two packets: the generators keep per-name state
 	if !avoid["inline:shared-name"] && rapid.IntRange(0, 3).Draw(rt, "share_inline") == 0 {
 		dsl.ShareInline(rt, p)
+	}
+	// no root packet: Go, Java and Rust need none, the other three refuse the model
+	if !dsl.Has(p.Features(), "len") && rapid.IntRange(0, 5).Draw(rt, "no_root") == 0 {
+		p.RootPacket().Root = false
 	}
 	return p
 }
@@ -413,6 +441,10 @@ func TestC14(t *testing.T) {
 			p.RootPacket().Root = false
 			c.Class("program-without-root-packet")
 		}
+		// a length-of field on a plain member
+		if p.RootPacket() != nil && p.RootPacket().Root && rapid.IntRange(0, 4).Draw(rt, "plain_length") == 0 && dsl.AddPlainLength(p) {
+			c.Class("length-of-a-plain-member")
+		}
 		// two match fields selected by ONE key field
 		if rapid.IntRange(0, 3).Draw(rt, "second_match_same_key") == 0 && dsl.AddSecondMatchSameKey(rt, p) {
 			c.Class("two-match-fields-on-one-key")
@@ -515,7 +547,7 @@ func TestC08(t *testing.T) {
 		_ = json.Unmarshal(raw, &k)
 		return evalC08(k)
 	})
-	kinds := []string{"alias", "dyn", "zchar", "defpad", "padarg", "attrplace", "defopt", "expand", "aslist", "via", "semi", "paircomma"}
+	kinds := []string{"alias", "dyn", "zchar", "lenzero", "keyzero", "defpad", "padarg", "attrplace", "defopt", "expand", "aslist", "via", "semi", "paircomma"}
 	c.Check(t, func(rt *rapid.T) {
 		p := dsl.GenProgram(rt, dsl.GenCfg{MaxPackets: 4, Docs: true, Avoid: avoid, Shapes: true, AnyOrder: true, KeywordNames: true, MetaShare: rapid.IntRange(0, 3).Draw(rt, "metashare") == 0})
 		ua, ub := map[string]int{}, map[string]int{}
